@@ -341,6 +341,12 @@ func runCheck(def *CheckDef, tier string, seed int, noKnown, noReplay bool, only
 			continue
 		}
 		seen := map[string]int{}
+		jobReplays := 0
+		// replay first the counterexamples whose bytes could be adjusted to a special checksum value (they are the
+		// ones that can reproduce when a path depends on such a value)
+		sort.SliceStable(r.Paths, func(i, j int) bool {
+			return r.Paths[i].Notes["crc-forged"] != "" && r.Paths[j].Notes["crc-forged"] == ""
+		})
 		reproducedKey := map[string]bool{}
 		notReproduced := map[string]string{}
 		for _, p := range r.Paths {
@@ -351,10 +357,12 @@ func runCheck(def *CheckDef, tier string, seed int, noKnown, noReplay bool, only
 					continue
 				}
 				seen[key]++
-				// up to 3 different paths per assertion are replayed until one reproduces, at most 8 replays per run
-				if seen[key] > 3 || len(replays) >= 8 {
+				// up to 3 different paths per assertion are replayed until one reproduces; at most 6 replays per job
+				// (so that one job's unreproducible counterexamples cannot starve another job's) and 40 per run
+				if seen[key] > 3 || jobReplays >= 6 || len(replays) >= 40 {
 					continue
 				}
+				jobReplays++
 				if o.spec.NoReplay || noReplay {
 					if seen[key] > 1 {
 						continue
